@@ -10,4 +10,10 @@ pub(crate) mod verif_peek {
 	pub fn ref_locks<'a, 'b, L>(c: &'b RefLockCollection<'a, L>) -> &'b [&'a dyn RawLock] {
 		&c.locks
 	}
+	pub fn owned_data<L>(c: &OwnedLockCollection<L>) -> &L {
+		&c.data
+	}
+	pub fn retry_data<L>(c: &RetryingLockCollection<L>) -> &L {
+		&c.data
+	}
 }
